@@ -62,6 +62,15 @@ class CallMixin:
                 except Unsupported:
                     pass
             return NONE
+        if any(isinstance(a, ast.Starred) for a in node.args):
+            # f(x, *rest): supported only for opaque callables (their arguments are not interpreted)
+            callee = self.eval(f, env)
+            if isinstance(callee, V) and (callee.ty == TFunc or (isinstance(callee.ty, TOpt) and callee.ty.inner == TFunc)):
+                args = [self.eval(a.value if isinstance(a, ast.Starred) else a, env) for a in node.args]
+                if node.keywords:
+                    raise Unsupported("keywords with *args")
+                return self.call_value(callee, args, {}, node, env)
+            raise Unsupported("*args")
         args, kwargs = self.eval_args(node, env)
         if isinstance(f, ast.Attribute):
             # method on super()
@@ -143,7 +152,7 @@ class CallMixin:
                 loc["self"] = V(TRef(owner), ref_t)
                 env = Env(loc, None)
                 return self.apply_contract(c, env, key, None, node, ret_ty=self.types.parse_str(c.returns) if c.returns else TNone)
-        raise Unsupported("call of opaque callable")
+        return self.opaque_call(callee, args, node, getattr(self, "cur_env", None))  # dictiter.py (Unsupported without an opaque-call policy)
 
     def apply_ufunc(self, name, args):
         """application of an uninterpreted function declared with R.ufunc (z3 Function; congruence only)"""
@@ -302,12 +311,14 @@ class CallMixin:
         if self.depth > MAX_DEPTH:
             raise Unsupported("inline depth")
         self.depth += 1
+        saved_env = getattr(self, "cur_env", None)
         try:
             env.anchors = {}
             env.local_types = {}
             return self.run_body(fnode, env)
         finally:
             self.depth -= 1
+            self.cur_env = saved_env
 
     def run_body(self, fnode, env):
         if not hasattr(env, "contract"):
@@ -387,6 +398,17 @@ class CallMixin:
         env.old = Env(dict(env.locals), env.module, env.cls, env.func)
         env.old_heap = self.heap.copy()
         env.old.old, env.old.old_heap = env.old, env.old_heap
+        if c.ghost_params:
+            # ghost arguments: expressions over the CALLER's state, named by the caller's contract (ghost_args)
+            cenv = getattr(self, "cur_env", None)
+            supplied = (cenv.contract.ghost_args.get(key, {}) if cenv is not None and getattr(cenv, "contract", None) is not None else {})
+            for gp, gty in c.ghost_params.items():
+                if gp not in supplied:
+                    raise Unsupported("call to %s: ghost parameter %s not supplied (ghost_args of the caller's contract)" % (key, gp))
+                gv = self.spec_val(supplied[gp], cenv)
+                gv = sym.coerce(gv, self.types.parse_str(gty, env.module))
+                env.locals[gp] = gv
+                env.old.locals[gp] = gv
         for k, e in c.let.items():
             env.locals[k] = self.spec_val(e, env)
             env.old.locals[k] = env.locals[k]
@@ -456,6 +478,17 @@ class CallMixin:
 
     def havoc_modifies(self, c, env):
         for loc in c.modifies:
+            if loc == "<opaque>":
+                # the callee runs opaque callables: everything they may touch is unknown afterwards (dictiter.py)
+                cfg = self.registry.consts.get("OPAQUE_CALL")
+                if not cfg:
+                    raise Unsupported("modifies '<opaque>' without OPAQUE_CALL declaration")
+                for spec in getattr(self, "loop_stack", []):
+                    if "<opaque>" not in spec.get("modifies", []):
+                        raise Unsupported("call with opaque effects inside a loop whose spec does not declare modifies=['<opaque>']")
+                self.assumptions_used.add("opaque callables: " + cfg["note"])
+                self.havoc_all_but(cfg["preserves"])
+                continue
             self.havoc_location(loc, env.old if False else env)
 
     # ------------------------------------------------------------------ spec functions
@@ -542,7 +575,12 @@ class CallMixin:
                 finally:
                     self.spec -= 1
         q = z3.ForAll if is_forall else z3.Exists
-        return sym.mk_bool(q(bound, body, patterns=pats) if pats else q(bound, body))
+        if pats:
+            try:
+                return sym.mk_bool(q(bound, body, patterns=pats))
+            except z3.Z3Exception:
+                pass  # not a usable trigger in this state (e.g. a select on a lambda): let the solver choose
+        return sym.mk_bool(q(bound, body))
 
     def sp_forall(self, node, env):
         return self._quant(node, env, True)
@@ -845,16 +883,22 @@ class CallMixin:
                 if len(args) < 2:
                     self.fail(present, "KeyError", "dict.pop missing key", node)
                     val = V(ty.v, z3.Select(sym.dict_val(recv), k.t))
-                    self.mutate(tgt, recv, sym.dict_mk(ty, z3.Store(sym.dict_dom(recv), k.t, False), sym.dict_val(recv)), env)
+                    if isinstance(ty.v, TRef):
+                        self.note_ref(val.t)
+                    self.dict_mutate(tgt, recv, sym.dict_mk(ty, z3.Store(sym.dict_dom(recv), k.t, False), sym.dict_val(recv)), env, "delete", k.t)
                     return val
                 if self.ctx.branch(present):
                     val = V(ty.v, z3.Select(sym.dict_val(recv), k.t))
-                    self.mutate(tgt, recv, sym.dict_mk(ty, z3.Store(sym.dict_dom(recv), k.t, False), sym.dict_val(recv)), env)
+                    self.dict_mutate(tgt, recv, sym.dict_mk(ty, z3.Store(sym.dict_dom(recv), k.t, False), sym.dict_val(recv)), env, "delete", k.t)
                     return val if args[1].ty != TNone else sym.mk_some(val)
                 return args[1] if args[1].ty != TNone else sym.mk_none(TOpt(ty.v))
             if name == "clear":
-                self.mutate(tgt, recv, sym.dict_empty(ty), env)
+                self.dict_mutate(tgt, recv, sym.dict_empty(ty), env, "clear")
                 return NONE
+            if name in ("keys", "values", "items") and not args:
+                from .dictiter import DictView
+
+                return DictView(name, recv, tgt)
         if isinstance(ty, TSet):
             if name == "add":
                 self.mutate(tgt, recv, V(ty, z3.Store(recv.t, sym.coerce(args[0], ty.k).t, True)), env)
